@@ -29,6 +29,36 @@ TOKENS = ["(", ")", "{", "}", "[", "]", ",", ";", "\n", "=", "==", "!", "??", "|
           "1e999", "0.", ".a[", ".a[-9223372036854775808]", "é", "日本", "‏", "﻿", "𝒳", "́", "\\u{110000}", "\\u{", "{{", "}}", "del(", "x[-2]"]
 
 
+WS = [" ", "\t", "\u00a0", "\u3000", "\u2003", "\u2028", "\ufeff", "\u0085", "\u1680", "é", "日"]
+ESC = ["\\n", "\\t", "\\\"", "\\\\", "\\0", "\\'", "\\u{41}", "\\u{1F30}", "\\u{}", "\\u{110000}", "\\u{12x}", "\\u{41", "\\u", "\\x41", "\\é", "\\",
+       "{{ x }}", "{{", "{{ .a }}", "{{ é }}", "}}"]
+
+
+def lexer_sources(rng, n):
+    """sources aimed at the lexer's string handling: every literal flavour (\"..\", s'..', r'..', t'..') filled with escapes,
+    line continuations (backslash-newline followed by ASCII and non-ASCII white space), templates and multi-byte
+    characters, complete or cut off at every position"""
+    out = []
+    for _ in range(n):
+        parts = []
+        for _ in range(rng.randint(1, 5)):
+            c = rng.random()
+            if c < 0.3:
+                parts.append("\\\n" + "".join(rng.choice(WS) for _ in range(rng.randint(0, 3))))
+            elif c < 0.6:
+                parts.append(rng.choice(ESC))
+            else:
+                parts.append(rng.choice(["a", "bc", "é", "日本", " ", "1", "𝒳"]))
+        body = "".join(parts)
+        q = rng.random()
+        lit = '"%s"' % body if q < 0.6 else ("s'%s'" % body if q < 0.75 else ("r'%s'" % body if q < 0.9 else "t'%s'" % body))
+        src = rng.choice([".a = %s", "x = %s\nx", "%s", "upcase(%s)", ".a = replace(\"x\", \"y\", %s)", "{ \"k\": %s }", "[%s, 1]"]) % lit
+        if rng.random() < 0.3:
+            src = src[:rng.randint(1, len(src))]
+        out.append(src)
+    return out
+
+
 def mutate(rng, src):
     k = rng.random()
     if k < 0.3:
@@ -85,6 +115,7 @@ def main(run, args):
             for _ in range(rng.randint(1, 3)):
                 m = mutate(rng, m)
             msrc.append((m, c["event"]))
+    msrc += [(m, cv.jo([])) for m in lexer_sources(rng, 600 if quick else 6000)]
     mcases = [{"src": m.encode("utf-8", "surrogatepass").hex() if False else m.encode("utf-8", "ignore").hex(), "event": ev, "vars": []} for m, ev in msrc]
     mouts = vlib.run_harness("prog", mcases)
     pan = []
